@@ -669,3 +669,274 @@ Lemma fmt_X_pad_no_minus k n : 0 <= n -> contains_char "-" (fmt_X_pad k n) = fal
 Proof. intros. now apply fmt_X_pad_no_char. Qed.
 Lemma fmt_X_pad_no_colon k n : 0 <= n -> contains_char ":" (fmt_X_pad k n) = false.
 Proof. intros. now apply fmt_X_pad_no_char. Qed.
+
+(* ------------------------------------------------------------------------------------------ *)
+(** * int(...) on digit-only text; parse-print round trips *)
+
+Lemma scan_digits_all_digits base l acc k : all_digits base l -> (l <> [] \/ (0 < k)%nat) ->
+  scan_digits base l acc k false = Some (fold_left (fun a d => a * base + d) (map (dval base) l) acc, []).
+Proof.
+  intros HF. revert acc k. induction HF as [|c l [d Hc] _ IH]; intros acc k Hk.
+  - cbn [scan_digits map fold_left]. destruct Hk as [Hk|Hk]; [congruence|].
+    destruct k; [lia|reflexivity].
+  - cbn [scan_digits map fold_left]. unfold dval at 2. rewrite Hc. apply IH. right. lia.
+Qed.
+
+Lemma scan_digits_digits base ds acc k : 2 <= base <= 16 -> ds <> [] ->
+  Forall (fun d => 0 <= d < base) ds ->
+  scan_digits base (map digit_char ds) acc k false = Some (fold_left (fun a d => a * base + d) ds acc, []).
+Proof.
+  intros Hb Hne HF. rewrite scan_digits_all_digits.
+  - now rewrite map_dval_digit_char by (try lia; assumption).
+  - apply all_digits_map_digit_char; [lia|assumption].
+  - left. destruct ds; [congruence|discriminate].
+Qed.
+
+Lemma scan_digits_digits_upper base ds acc k : 2 <= base <= 16 -> ds <> [] ->
+  Forall (fun d => 0 <= d < base) ds ->
+  scan_digits base (map digit_char_upper ds) acc k false = Some (fold_left (fun a d => a * base + d) ds acc, []).
+Proof.
+  intros Hb Hne HF. rewrite scan_digits_all_digits.
+  - now rewrite map_dval_digit_char_upper by (try lia; assumption).
+  - apply all_digits_map_digit_char_upper; [lia|assumption].
+  - left. destruct ds; [congruence|discriminate].
+Qed.
+
+(* the part of py_int_chars after whitespace and sign have been consumed *)
+Definition py_int_body (base : Z) (neg : bool) (l2 : list ascii) : option Z :=
+  let l3 := match l2 with
+            | z :: p :: r => if ascii_eqb z ch_0 && is_prefix_char base p
+                             then match r with u :: r' => if ascii_eqb u ch_us then r' else r | [] => r end
+                             else l2
+            | _ => l2
+            end in
+  match l3 with
+  | [] => None
+  | c :: _ =>
+      if ascii_eqb c ch_us then None
+      else match scan_digits base l3 0 0 false with
+           | None => None
+           | Some (v, rest) =>
+               match drop_space_int rest with
+               | [] => Some (if neg then - v else v)
+               | _ => None
+               end
+           end
+  end.
+
+Lemma py_int_body_digits base neg l : l <> [] -> all_digits base l ->
+  py_int_body base neg l =
+  Some (if neg then - from_digits base (map (dval base) l) else from_digits base (map (dval base) l)).
+Proof.
+  intros Hne HF. unfold py_int_body.
+  assert (E3 : match l with
+               | z :: p :: r => if ascii_eqb z ch_0 && is_prefix_char base p
+                                then match r with u :: r' => if ascii_eqb u ch_us then r' else r | [] => r end
+                                else l
+               | _ => l
+               end = l).
+  { destruct l as [|z [|p r]]; try reflexivity.
+    inversion HF as [|? ? _ HF']; subst. inversion HF' as [|? ? Hp _]; subst.
+    now rewrite (digit_not_prefix base p Hp), andb_false_r. }
+  rewrite E3. destruct l as [|c r]; [congruence|].
+  inversion HF as [|? ? Hc _]; subst.
+  rewrite (digit_not_us base c Hc).
+  rewrite scan_digits_all_digits by (try assumption; left; discriminate).
+  reflexivity.
+Qed.
+
+Lemma py_int_chars_nosign base c r :
+  is_space_int c = false -> ascii_eqb c ch_plus = false -> ascii_eqb c ch_minus = false ->
+  py_int_chars base (c :: r) = py_int_body base false (c :: r).
+Proof.
+  intros Hs Hp Hm. unfold py_int_chars. cbn [drop_space_int]. rewrite Hs, Hp, Hm. reflexivity.
+Qed.
+
+Lemma py_int_chars_minus base l : py_int_chars base (ch_minus :: l) = py_int_body base true l.
+Proof. reflexivity. Qed.
+
+Lemma py_int_chars_plus base l : py_int_chars base (ch_plus :: l) = py_int_body base false l.
+Proof. reflexivity. Qed.
+
+Lemma py_int_chars_digits base l : l <> [] -> all_digits base l ->
+  py_int_chars base l = Some (from_digits base (map (dval base) l)).
+Proof.
+  intros Hne HF. destruct l as [|c r]; [congruence|].
+  inversion HF as [|? ? Hc _]; subst.
+  rewrite py_int_chars_nosign.
+  - now apply (py_int_body_digits base false).
+  - eapply digit_not_space_int; eauto.
+  - eapply digit_not_plus; eauto.
+  - eapply digit_not_minus; eauto.
+Qed.
+
+Lemma py_int_chars_minus_digits base l : l <> [] -> all_digits base l ->
+  py_int_chars base (ch_minus :: l) = Some (- from_digits base (map (dval base) l)).
+Proof. intros Hne HF. rewrite py_int_chars_minus. now apply (py_int_body_digits base true). Qed.
+
+Lemma py_int_empty base : py_int base "" = None.
+Proof. reflexivity. Qed.
+
+(* the premise `2 <= base <= 16` and a "prefix rule not triggered" premise of the task statement are not
+   needed: a digit of the base is never a prefix letter of that base (digit_not_prefix) *)
+Lemma py_int_digits base s : s <> EmptyString ->
+  (forall c, In c (chars s) -> exists d, digit_in base c = Some d) ->
+  py_int base s = Some (from_digits base (map (dval base) (chars s))).
+Proof.
+  intros Hne HF. unfold py_int. apply py_int_chars_digits.
+  - intros E. apply chars_nil_iff in E. contradiction.
+  - apply Forall_forall. exact HF.
+Qed.
+
+(* same statement with the value function spelled out *)
+Lemma py_int_digits' base s : s <> EmptyString ->
+  (forall c, In c (chars s) -> exists d, digit_in base c = Some d) ->
+  py_int base s = Some (from_digits base (map (fun c => match digit_in base c with Some d => d | None => 0 end) (chars s))).
+Proof. apply py_int_digits. Qed.
+
+(* strictness direction: digit-only text is accepted only with its positional value *)
+Lemma py_int_only_digits_value base s v : 2 <= base -> all_digits base (chars s) -> py_int base s = Some v ->
+  s <> EmptyString /\ v = from_digits base (map (dval base) (chars s)) /\
+  0 <= v < base ^ Z.of_nat (String.length s).
+Proof.
+  intros Hb HF Hv. destruct s as [|c s'] eqn:Es; [discriminate|]. rewrite <- Es in *.
+  assert (Hne : s <> EmptyString) by (rewrite Es; discriminate).
+  rewrite py_int_digits in Hv by (try assumption; apply Forall_forall; exact HF).
+  injection Hv as <-. split; [exact Hne|split; [reflexivity|]].
+  pose proof (map_dval_range base _ HF) as HR. split.
+  - apply from_digits_nonneg; [lia|exact HR].
+  - rewrite <- length_chars, <- (map_length (dval base)). apply from_digits_bound; [lia|exact HR].
+Qed.
+
+(* ---- round trips ---- *)
+
+Lemma from_digits_dvals_fmt_nat base up n : 2 <= base <= 36 -> 0 <= n ->
+  from_digits base (map (dval base) (fmt_nat base up n)) = n.
+Proof. intros Hb Hn. rewrite fmt_nat_dvals by lia. apply digits_of_value; lia. Qed.
+
+Lemma py_int_chars_fmt_nat base up n : 2 <= base <= 36 -> 0 <= n ->
+  py_int_chars base (fmt_nat base up n) = Some n.
+Proof.
+  intros Hb Hn. rewrite py_int_chars_digits.
+  - now rewrite from_digits_dvals_fmt_nat.
+  - apply fmt_nat_nonempty.
+  - now apply fmt_nat_all_digits.
+Qed.
+
+Lemma py_int_chars_minus_fmt_nat base up n : 2 <= base <= 36 -> 0 <= n ->
+  py_int_chars base (ch_minus :: fmt_nat base up n) = Some (- n).
+Proof.
+  intros Hb Hn. rewrite py_int_chars_minus_digits.
+  - now rewrite from_digits_dvals_fmt_nat.
+  - apply fmt_nat_nonempty.
+  - now apply fmt_nat_all_digits.
+Qed.
+
+Lemma py_int_chars_pad0_fmt_nat base up k n : 2 <= base <= 36 -> 0 <= n ->
+  py_int_chars base (pad0 k (fmt_nat base up n)) = Some n.
+Proof.
+  intros Hb Hn. rewrite py_int_chars_digits.
+  - now rewrite map_dval_pad0, from_digits_repeat0, from_digits_dvals_fmt_nat.
+  - apply pad0_nonempty, fmt_nat_nonempty.
+  - apply pad0_all_digits; [lia|]. now apply fmt_nat_all_digits.
+Qed.
+
+Lemma py_int_fmt_d n : py_int 10 (fmt_d n) = Some n.
+Proof.
+  unfold py_int, fmt_d. case_ltb n 0; cbn [chars]; rewrite chars_str_of.
+  - rewrite py_int_chars_minus_fmt_nat by lia. f_equal. lia.
+  - apply py_int_chars_fmt_nat; lia.
+Qed.
+
+Lemma py_int_fmt_x_signed n : py_int 16 (fmt_x n) = Some n.
+Proof.
+  unfold py_int, fmt_x. case_ltb n 0; cbn [chars]; rewrite chars_str_of.
+  - rewrite py_int_chars_minus_fmt_nat by lia. f_equal. lia.
+  - apply py_int_chars_fmt_nat; lia.
+Qed.
+
+Lemma py_int_fmt_X_signed n : py_int 16 (fmt_X n) = Some n.
+Proof.
+  unfold py_int, fmt_X. case_ltb n 0; cbn [chars]; rewrite chars_str_of.
+  - rewrite py_int_chars_minus_fmt_nat by lia. f_equal. lia.
+  - apply py_int_chars_fmt_nat; lia.
+Qed.
+
+Lemma py_int_fmt_x n : 0 <= n -> py_int 16 (fmt_x n) = Some n.
+Proof. intros _. apply py_int_fmt_x_signed. Qed.
+
+Lemma py_int_fmt_X n : 0 <= n -> py_int 16 (fmt_X n) = Some n.
+Proof. intros _. apply py_int_fmt_X_signed. Qed.
+
+Lemma py_int_fmt_x_pad k n : 0 <= n -> py_int 16 (fmt_x_pad k n) = Some n.
+Proof. intros Hn. unfold py_int, fmt_x_pad. rewrite chars_str_of. apply py_int_chars_pad0_fmt_nat; lia. Qed.
+
+Lemma py_int_fmt_X_pad k n : 0 <= n -> py_int 16 (fmt_X_pad k n) = Some n.
+Proof. intros Hn. unfold py_int, fmt_X_pad. rewrite chars_str_of. apply py_int_chars_pad0_fmt_nat; lia. Qed.
+
+Lemma py_int_fmt_d_pad k n : 0 <= n -> py_int 10 (fmt_d_pad k n) = Some n.
+Proof. intros Hn. unfold py_int, fmt_d_pad. rewrite chars_str_of. apply py_int_chars_pad0_fmt_nat; lia. Qed.
+
+Lemma py_int_fmt_b_pad k n : 0 <= n -> py_int 2 (fmt_b_pad k n) = Some n.
+Proof. intros Hn. unfold py_int, fmt_b_pad. rewrite chars_str_of. apply py_int_chars_pad0_fmt_nat; lia. Qed.
+
+(* ---- lengths ---- *)
+
+Lemma pad0_fmt_nat_length base up k n : 2 <= base -> 0 <= n < base ^ Z.of_nat k -> (0 < k)%nat ->
+  List.length (pad0 k (fmt_nat base up n)) = k.
+Proof. intros Hb Hn Hk. apply pad0_length. rewrite fmt_nat_length. now apply digits_of_length. Qed.
+
+Lemma fmt_x_pad_length k n : 0 <= n < 16 ^ Z.of_nat k -> (0 < k)%nat -> String.length (fmt_x_pad k n) = k.
+Proof. intros. unfold fmt_x_pad. rewrite length_str_of. apply pad0_fmt_nat_length; [lia|assumption..]. Qed.
+
+Lemma fmt_X_pad_length k n : 0 <= n < 16 ^ Z.of_nat k -> (0 < k)%nat -> String.length (fmt_X_pad k n) = k.
+Proof. intros. unfold fmt_X_pad. rewrite length_str_of. apply pad0_fmt_nat_length; [lia|assumption..]. Qed.
+
+Lemma fmt_d_pad_length k n : 0 <= n < 10 ^ Z.of_nat k -> (0 < k)%nat -> String.length (fmt_d_pad k n) = k.
+Proof. intros. unfold fmt_d_pad. rewrite length_str_of. apply pad0_fmt_nat_length; [lia|assumption..]. Qed.
+
+Lemma fmt_b_pad_length k n : 0 <= n < 2 ^ Z.of_nat k -> (0 < k)%nat -> String.length (fmt_b_pad k n) = k.
+Proof. intros. unfold fmt_b_pad. rewrite length_str_of. apply pad0_fmt_nat_length; [lia|assumption..]. Qed.
+
+(* padding never truncates: at least k characters, and the unpadded text when k <= 1 *)
+Lemma pad0_length_ge_k k l : (k <= List.length (pad0 k l))%nat.
+Proof. unfold pad0. rewrite app_length, repeat_char_length. lia. Qed.
+
+Lemma fmt_x_pad_small k n : (k <= 1)%nat -> 0 <= n -> fmt_x_pad k n = fmt_x n.
+Proof.
+  intros Hk Hn. rewrite fmt_x_nonneg by lia. unfold fmt_x_pad. f_equal. apply pad0_length_ge.
+  pose proof (fmt_nat_nonempty 16 false n). destruct (fmt_nat 16 false n); [congruence|cbn; lia].
+Qed.
+
+Lemma fmt_d_pad_small k n : (k <= 1)%nat -> 0 <= n -> fmt_d_pad k n = fmt_d n.
+Proof.
+  intros Hk Hn. rewrite fmt_d_nonneg by lia. unfold fmt_d_pad. f_equal. apply pad0_length_ge.
+  pose proof (fmt_nat_nonempty 10 false n). destruct (fmt_nat 10 false n); [congruence|cbn; lia].
+Qed.
+
+Lemma fmt_d_nonempty n : fmt_d n <> EmptyString.
+Proof.
+  unfold fmt_d. destruct (n <? 0); [discriminate|]. intros E. apply str_of_nil_iff in E.
+  now apply fmt_nat_nonempty in E.
+Qed.
+
+Lemma fmt_x_nonempty n : fmt_x n <> EmptyString.
+Proof.
+  unfold fmt_x. destruct (n <? 0); [discriminate|]. intros E. apply str_of_nil_iff in E.
+  now apply fmt_nat_nonempty in E.
+Qed.
+
+(* bound on the number of characters of an unpadded numeral *)
+Lemma fmt_d_length n k : 0 <= n < 10 ^ Z.of_nat k -> (0 < k)%nat -> (1 <= String.length (fmt_d n) <= k)%nat.
+Proof.
+  intros Hn Hk. rewrite fmt_d_nonneg by lia. rewrite length_str_of, fmt_nat_length.
+  pose proof (digits_of_length 10 n k ltac:(lia) Hn Hk). pose proof (digits_of_nonempty 10 n).
+  destruct (digits_of 10 n); [congruence|cbn in *; lia].
+Qed.
+
+Lemma fmt_x_length n k : 0 <= n < 16 ^ Z.of_nat k -> (0 < k)%nat -> (1 <= String.length (fmt_x n) <= k)%nat.
+Proof.
+  intros Hn Hk. rewrite fmt_x_nonneg by lia. rewrite length_str_of, fmt_nat_length.
+  pose proof (digits_of_length 16 n k ltac:(lia) Hn Hk). pose proof (digits_of_nonempty 16 n).
+  destruct (digits_of 16 n); [congruence|cbn in *; lia].
+Qed.
